@@ -151,12 +151,13 @@ def run(nslots, only, runs):
             else:
                 lines[m['line']] = m['new']
                 open(p, 'w').write('\n'.join(lines))
-                # the pinned suite lives in the three library crates (unit + doc tests); the PyO3 crate has no tests of its
+                # first pass: the 39 pinned unit tests only (the 29 doc-tests take most of the build time; survivors of the checks are
+                # re-run against the doc-tests by `mutants.py doctests`); the pinned suite lives in the three library crates; the PyO3 crate has no tests of its
                 # own, a mutant there only has to compile (the extension is built by ./check C18 / C19 anyway)
                 if m['file'].startswith('rust/'):
                     code, out = sh(f'cd {D}/repo && cargo check -q -p bourse --offline 2>&1 | tail -40', {'CARGO_TARGET_DIR': D + '/target-test', 'CARGO_NET_OFFLINE': 'true'}, timeout=900)
                 else:
-                    code, out = sh(f'cd {D}/repo && cargo test -q -p bourse-book -p bourse-de -p bourse-macros --no-fail-fast --offline 2>&1 | tail -40', {'CARGO_TARGET_DIR': D + '/target-test', 'CARGO_NET_OFFLINE': 'true'}, timeout=900)
+                    code, out = sh(f'cd {D}/repo && cargo test -q -p bourse-book -p bourse-de -p bourse-macros --lib --tests --no-fail-fast --offline 2>&1 | tail -40', {'CARGO_TARGET_DIR': D + '/target-test', 'CARGO_NET_OFFLINE': 'true'}, timeout=900)
                 if 'error: could not compile' in out or 'error[E' in out or re.search(r'^error: ', out, re.M) and 'test failed' not in out:
                     res['outcome'] = 'nocompile'
                 elif 'test failed' in out or 'FAILED' in out or code == 124:
@@ -200,8 +201,35 @@ def report():
             print(f"{r['outcome'].upper()} #{r['id']} {r['file']}:{r['line']} [{r['op']}]\n    - {r['old']}\n    + {r['new']}")
 
 
+def doctests():
+    """classify the survivors: does the full pinned suite (doc-tests included) pass with the mutant?"""
+    muts = {m['id']: m for m in json.load(open(ROOT + '/list.json'))}
+    rs = [json.loads(l) for l in open(ROOT + '/results.jsonl')]
+    D = '/tmp/mut/iso11'
+    sh('/verif/tools/iso.sh setup 11')
+    out = []
+    for r in rs:
+        if r['outcome'] != 'survived' or r['file'].startswith('rust/'):
+            continue
+        m = muts[r['id']]
+        sh(f'git -C {D}/repo reset -q --hard HEAD')
+        p = f"{D}/repo/{m['file']}"
+        lines = open(p).read().split('\n')
+        lines[m['line']] = m['new']
+        open(p, 'w').write('\n'.join(lines))
+        code, o = sh(f'cd {D}/repo && cargo test -q --workspace --doc --offline 2>&1 | tail -20', {'CARGO_TARGET_DIR': D + '/target-test', 'CARGO_NET_OFFLINE': 'true'}, timeout=1800)
+        r['doctests'] = 'fail' if ('FAILED' in o or 'test failed' in o or 'error' in o) else 'pass'
+        print(r['id'], r['file'], r['line'], r['op'], 'doctests', r['doctests'], flush=True)
+        out.append(r)
+    sh(f'git -C {D}/repo reset -q --hard HEAD')
+    json.dump(out, open(ROOT + '/survivors.json', 'w'), indent=1)
+
+
 if __name__ == '__main__':
     a = sys.argv[1:]
+    if a[0] == 'doctests':
+        doctests()
+        sys.exit(0)
     if a[0] == 'gen':
         gen(a[1] if len(a) > 1 else None)
     elif a[0] == 'run':
